@@ -56,42 +56,52 @@ def render (d : Decl) (items : List Item) : List Str := items.flatMap (renderIte
 
 /-! ### explain -/
 
+/-- The shape of an option-like token: `--name[=value]` or `-letters[=value]`; `none` if it is not
+valid option syntax (one or two dashes followed by a name that starts with neither `-` nor `=`). -/
+inductive Shape where
+  | long (n : Str) (v : Option Str)
+  | short (letters : Str) (v : Option Str)
+  deriving DecidableEq, Repr
+
+def shapeOf (tok : Str) : Option Shape :=
+  if !syntaxOk tok then none else
+  match splitEq tok with
+  | ('-' :: '-' :: n, v) => some (.long n v)
+  | ('-' :: letters, v) => some (.short letters v)
+  | _ => none
+
+/-- a value-taking option spelled `head` got value `v` inline, or takes the next token as its value -/
+def explainValue (n : Str) (short : Bool) (value : Option Str) (next : Option Str) : Option (Item × Bool) :=
+  match value with
+  | some v => some (.optEq n short v, false)
+  | none =>
+    match next with
+    | some nx => if isValueTok nx then some (.optSep n short nx, true) else none
+    | none => none
+
+def explainLong (d : Decl) (n : Str) (value : Option Str) (next : Option Str) : Option (Item × Bool) :=
+  if isValueOptName d n then explainValue n false value next
+  else if isTogName d n then
+    (if value.isSome then none else some (.togLong n, false))
+  else if noPrefix.isPrefixOf n && isTogName d (n.drop 3) then
+    (if value.isSome then none else some (.togNeg (n.drop 3), false))
+  else none
+
+def explainShort (d : Decl) (letters : Str) (value : Option Str) (next : Option Str) : Option (Item × Bool) :=
+  match letters with
+  | [c] =>
+    match valueOptOfLetter d c with
+    | some n => explainValue n true value next
+    | none => if value.isNone && isTogLetter d c then some (.togShort [c], false) else none
+  | _ => if value.isNone && letters.all (isTogLetter d) then some (.togShort letters, false) else none
+
 /-- Explain one option-like token (not a value token, not `--`, only-positionals mode off).
 `next` is the following token.  Returns the item and whether the next token belongs to it. -/
 def explainTok (d : Decl) (tok : Str) (next : Option Str) : Option (Item × Bool) :=
-  if !syntaxOk tok then none else
-  let (name, value) := splitEq tok
-  match name with
-  | '-' :: '-' :: n =>
-    if isValueOptName d n then
-      match value with
-      | some v => some (.optEq n false v, false)
-      | none =>
-        match next with
-        | some nx => if isValueTok nx then some (.optSep n false nx, true) else none
-        | none => none
-    else if isTogName d n then
-      (if value.isSome then none else some (.togLong n, false))
-    else if noPrefix.isPrefixOf n && isTogName d (n.drop 3) then
-      (if value.isSome then none else some (.togNeg (n.drop 3), false))
-    else none
-  | '-' :: letters =>
-    match value with
-    | some v =>
-      match letters with
-      | [c] => (valueOptOfLetter d c).map fun n => (.optEq n true v, false)
-      | _ => none
-    | none =>
-      match letters with
-      | [c] =>
-        match valueOptOfLetter d c with
-        | some n =>
-          match next with
-          | some nx => if isValueTok nx then some (.optSep n true nx, true) else none
-          | none => none
-        | none => if isTogLetter d c then some (.togShort [c], false) else none
-      | _ => if letters.all (isTogLetter d) then some (.togShort letters, false) else none
-  | _ => none
+  match shapeOf tok with
+  | none => none
+  | some (.long n v) => explainLong d n v next
+  | some (.short ls v) => explainShort d ls v next
 
 /-- One left-to-right classification of the whole argument vector. -/
 def explainGo (d : Decl) (onlyPos : Bool) (toks : List Str) : Option (List Item) :=
